@@ -441,6 +441,10 @@ func Modules(t *rapid.T, o ModOpts) *ModuleSet {
 		var ch Chooser = Canonical{}
 		if o.Layout && rapid.IntRange(0, 3).Draw(t, "layout") == 0 {
 			ch = &simpleRapidChooser{t: t}
+		} else if o.Layout && o.Decoys && rapid.IntRange(0, 2).Draw(t, "layoutMultiLine") == 0 {
+			// position lookups scan the raw text: declarations whose type restrictions continue on further lines (and
+			// everything else the layout may do) in front of the declaration that is looked for
+			ch = &simpleRapidChooser{t: t, multiLine: true}
 		}
 		opts := RenderOpts{Module: f.Module, Extend: f.Extend}
 		if f.Module == "" {
@@ -460,9 +464,15 @@ func Modules(t *rapid.T, o ModOpts) *ModuleSet {
 	return ms
 }
 
-type simpleRapidChooser struct{ t *rapid.T }
+type simpleRapidChooser struct {
+	t         *rapid.T
+	multiLine bool // write every second type-restriction list over several lines
+}
 
 func (c *simpleRapidChooser) Intn(n int, label string) int {
+	if c.multiLine && label == "restr_multiline" && n == 5 && rapid.Bool().Draw(c.t, "forceMultiLine") {
+		return 4
+	}
 	return rapid.IntRange(0, n-1).Draw(c.t, label)
 }
 
